@@ -45,7 +45,7 @@ def main():
     rng = random.Random(a.seed * 7907 + 3)
     res = O.Result("random Clifford gate kind x placement (control<>target, registers up to 12) x Pauli string "
                    "(0..6 factors incl. spectators, random enumeration order); distinct = (gate, label)")
-    n_cases = 500 if a.tier == "quick" else 6000
+    n_cases = 1200 if a.tier == "quick" else 6000
     cases = []
     keep = []  # every label built stays alive: PauliLabel interns instances in a weak cache keyed by a string
     # wide registers with digit-structured indices (1, 11, 111, 12, 112, ...): keys that concatenate digits collide there
@@ -148,7 +148,7 @@ def main():
     # (4) rotation-kind gates at Clifford angles (multiples of pi/2): the kinds are not in CLIFFORD_GATE_NAMES, so the call
     # may reject them; if it answers, the answer must satisfy U P U^dag = c P'
     import math
-    for _ in range(60 if a.tier == "quick" else 600):
+    for _ in range(200 if a.tier == "quick" else 600):
         n = rng.choice([1, 2, 3, 4])
         q = rng.randrange(n)
         kname = rng.choice(["RX", "RY", "RZ", "U1", "U2", "U3", "PauliRotation", "PauliRotationN", "TOFFOLI"])
